@@ -1326,7 +1326,30 @@ fn record(ctx: &mut Ctx, cs: &Case, an: &Analysis, shrunk: &mut HashSet<String>,
     }
 }
 
+/// Address-space cap for a worker process.  The workload only contains cases whose predicted
+/// search is a few 10^4 unification steps (a few MB); an engine whose search explodes far
+/// beyond that then dies with an allocation failure (SIGABRT) while the case is in progress,
+/// which the runtime reports as `process_abort` for that case, instead of running into the
+/// wall-clock watchdog (inconclusive).  No wall-clock quantity is involved.
+fn cap_address_space(bytes: u64) {
+    #[repr(C)]
+    struct RLimit {
+        cur: u64,
+        max: u64,
+    }
+    extern "C" {
+        fn setrlimit(resource: i32, rlim: *const RLimit) -> i32;
+    }
+    #[cfg(all(target_os = "linux", target_pointer_width = "64"))]
+    unsafe {
+        const RLIMIT_AS: i32 = 9;
+        let lim = RLimit { cur: bytes, max: bytes };
+        let _ = setrlimit(RLIMIT_AS, &lim);
+    }
+}
+
 fn run(ctx: &mut Ctx) {
+    cap_address_space(3 << 30);
     let thorough = ctx.thorough();
     let limit: f64 = ctx.by_tier(40_000.0, 400_000.0);
     let mut shrunk: HashSet<String> = HashSet::new();
